@@ -22,6 +22,20 @@ var (
 	VerifCloneRange func(dst, src *os.File, srcOffset, srcLength, dstOffset uint64) error
 )
 
+func verifCanClone(dstFile, srcFile string) (bool, bool) {
+	if VerifCanClone == nil {
+		return false, false
+	}
+	return VerifCanClone(dstFile, srcFile), true
+}
+
+func verifCloneRange(dst, src *os.File, srcOffset, srcLength, dstOffset uint64) (error, bool) {
+	if VerifCloneRange == nil {
+		return nil, false
+	}
+	return VerifCloneRange(dst, src, srcOffset, srcLength, dstOffset), true
+}
+
 // verifPlan reports a plan as a list of segments [first, last, kind, source start] with kind 0 = no source,
 // 1 = null-chunk seed, 2 = file seed (source file name in "files").
 func verifPlan(attempt int, plan Plan) {
